@@ -197,6 +197,8 @@ reg("C05",
     )
 
 import thorough_names
+reg("C04", H("c04", "c04_opaque_body_large", tier="thorough", timeout=1500, mem=16, bounds="70000-byte input with unconstrained contents, symbolic input length and len argument (bodies beyond 16-bit lengths)",
+              funcs=["parse_tls_handshake_msg_serverkeyexchange", "parse_tls_handshake_msg_newsessionticket"]))
 reg("C04", *[H("c04t", n, tier="thorough", timeout=1500, mem=16, bounds="handshake type and declared length concrete (%s), body and following byte symbolic" % n[5:],
                funcs=["parse_tls_message_handshake"]) for n in thorough_names.C04T])
 reg("C05", *[H("c05t", n, tier="thorough", timeout=1200, mem=12, bounds="extension type and content length concrete (%s), content and following byte symbolic; three dispatchers" % n[5:],
